@@ -260,8 +260,9 @@ class WebSocket(object):
             return
         if self.is_closing:
             yield events.Closed(message.code, message.reason)
-            self.state.closing = False
+            # Set closed first, the websocket must never appear active
             self.state.closed = True
+            self.state.closing = False
         else:
             yield events.Closing(message.code, message.reason)
             self.close(message.code, message.reason)
@@ -276,8 +277,8 @@ class WebSocket(object):
         """Called on disconnect."""
         if self.state.session is not None:
             self.state.session.close()
-        self.state.closing = False
         self.state.closed = True
+        self.state.closing = False
 
     def feed(self, data):
         """Feed with data from the socket, and yield any events.
